@@ -15,7 +15,8 @@ LEVEL_TEXT = ('Bounded-exhaustive runtime check: every ordered tree shape with <
               'replace_by_pure_dict/split/filter/merge/|/- for all pairs of sub-states, with a sortedness invariant hooked '
               'on FlatState construction.'
               ' Split / filter are also checked for FIRST-match membership against an independent reading of the filters;'
-              ' States contain string keys that look like integers.')
+              ' States contain string keys that look like integers.'
+              ' Round e/f: copied empty_node marker between flatten and unflatten, state.plain_leaves (pure-dict round trip with str / dataclass / Enum leaves).')
 LEVEL_NOTE = ('Trusts the reference path enumerator and prune_empty in vf/props/c16.py; is_leaf true at the root and '
               'separators occurring in keys are outside the property domain and not generated.')
 TECHNIQUE = 'runtime monitoring: inverse-law and set-law oracles + FlatState sortedness invariant hook on the real functions'
